@@ -6,7 +6,7 @@ from .C03 import rows_of
 
 ID = 'C04'
 TARGETS = ['theories/Properties/C04.vo']
-THEOREMS = []
+THEOREMS = core.theorems_of(ID)
 LEVEL = ('the expected game is game_of r: a direct fold over the frame history (ids in file order, one row per occurrence, presence bit = character had events, '
          'rows = that occurrence\'s payloads, items via offsets); reader model tied to the code by differential runs; the history-mirroring oracle is '
          'evaluated on the real reader, including exhaustive presence patterns on small games')
